@@ -205,15 +205,17 @@ class C29Monitor(explore.Monitor):
     if quiet:
       out = self.check_groups(st, e, FINAL_GROUPS) + out
     stat_sink(st)
-    # explore() reports the first failure of a history: anything that does not look like one of the
-    # two recognisable root-cause patterns goes first, the recognisable ones are rotated
-    plain = [v for v in out if not (v[1].get("attribute_recorder") or
-                                    v[1].get("only_removals_of_nonexistent_rows"))]
-    known_looking = [v for v in out if v not in plain]
-    if known_looking:
-      k = st["calls"] % len(known_looking)
-      known_looking = known_looking[k:] + known_looking[:k]
-    return plain + known_looking
+    # explore() reports the FIRST failure of a history: failures of classes that are not listed as
+    # known findings go first (a new failure must never hide behind a known one), the known ones
+    # are rotated so that each of them is reported by some history
+    from checks import C04
+    known = C04.known_classes("C29")
+    new = [v for v in out if (v[0], self.classify(v[0], v[1], None, None)) not in known]
+    old = [v for v in out if v not in new]
+    if old:
+      k = st["calls"] % len(old)
+      old = old[k:] + old[:k]
+    return new + old
 
   def classify(self, clause, detail, bundle, history):
     if detail.get("attribute_recorder"):
@@ -259,7 +261,10 @@ def main():
   d = tempfile.mkdtemp(prefix="verif-c29-")
   os.environ["VERIF_C29_STATS"] = d
   try:
-    explore.explore(rep, "checks.C29", "C29Monitor", n_quick=96, n_thorough=2400)
+    from checks import C02
+    C02.tune_explore(6)
+    explore.explore(rep, "checks.C29", "C29Monitor", n_quick=96, n_thorough=2400,
+                    budget_quick_s=40)
     calls = raised = 0
     for p in glob.glob(os.path.join(d, "*.jsonl")):
       for line in open(p):
